@@ -114,6 +114,36 @@ theorem readLineEnding_sim (h : Sim S T abs inv) (s : σ) (hi : inv s) :
   | blocked => exact ⟨rfl, rfl, hb⟩
   | panic => exact ⟨rfl, rfl, hb⟩
 
+theorem skipTrailersLoop_sim (h : Sim S T abs inv) (k : Nat) :
+    ∀ (s : σ), inv s → Rel abs inv (skipTrailersLoop S k s) (skipTrailersLoop T k (abs s)) := by
+  induction k with
+  | zero => intro s hi; exact ⟨rfl, rfl, hi⟩
+  | succ k ih =>
+    intro s hi
+    unfold skipTrailersLoop
+    obtain ⟨a, b, hx, hy, hb⟩ := (readLine_sim h s Consts.trailerLineLimit hi).elim
+    rw [hx, hy]
+    cases a with
+    | ok line =>
+      simp only
+      split
+      · exact ⟨rfl, rfl, hb⟩
+      · exact ih b hb
+    | err e => exact ⟨rfl, rfl, hb⟩
+    | blocked => exact ⟨rfl, rfl, hb⟩
+    | panic => exact ⟨rfl, rfl, hb⟩
+
+theorem skipTrailers_sim (h : Sim S T abs inv) (s : σ) (hi : inv s) :
+    Rel abs inv (skipTrailers S s) (skipTrailers T (abs s)) :=
+  skipTrailersLoop_sim h _ s hi
+
+theorem chunkEnd_sim (h : Sim S T abs inv) (last : Bool) (s : σ) (hi : inv s) :
+    Rel abs inv (chunkEnd S last s) (chunkEnd T last (abs s)) := by
+  unfold chunkEnd
+  cases last
+  · exact readLineEnding_sim h s hi
+  · exact skipTrailers_sim h s hi
+
 theorem parseHeadersLoop_sim (h : Sim S T abs inv) (fuel : Nat) :
     ∀ (s : σ) (mh cnt : Nat) (hs : Headers), inv s →
     Rel abs inv (parseHeadersLoop S fuel s mh cnt hs) (parseHeadersLoop T fuel (abs s) mh cnt hs) := by
@@ -203,7 +233,7 @@ theorem refillData_sim (h : Sim S T abs inv) (c1 : Chunked σ) (maxBuf : Nat) (h
     · simp only [h1, if_false]
       by_cases h2 : c1.remaining - bs.length = 0
       · simp only [h2, if_true]
-        obtain ⟨a2, b2, hx2, hy2, hb2⟩ := (readLineEnding_sim h b hb).elim
+        obtain ⟨a2, b2, hx2, hy2, hb2⟩ := (chunkEnd_sim h c1.reachedEof b hb).elim
         rw [hx2, hy2]
         cases a2 with
         | ok v => cases v <;> exact ⟨rfl, rfl, hb2⟩
